@@ -22,7 +22,10 @@ MODELS = {"2Y0A02": (ds.SharpIR2Y0A02, dss.SharpIR2Y0A02Sim), "2Y0A21": (ds.Shar
           "2Y0A41@legacy": (getattr(ds, "SharpIRGP2Y0A41SK0F", None), dss.SharpIR2Y0A41Sim)}
 PORTS = {"2Y0A02": 0, "2Y0A21": 1, "2Y0A41": 2, "2Y0A02@hi": 4, "2Y0A21@hi": 5, "2Y0A41@hi": 6, "2Y0A41@legacy": 7}
 SPECIAL = [(-1.0, True), (0.0, True), (-0.0, True), (1e-9, True), (0.00001, True), (7.5, False), (1e300, False),
-           (float("inf"), False), (-float("inf"), True)]
+           (float("inf"), False), (-float("inf"), True),
+           # the smallest positive doubles (subnormals included) and the largest finite ones
+           (5e-324, True), (2.2250738585072014e-308, True), (1e-300, True), (1e-252, True), (1.7976931348623157e308, False),
+           (3e282, False), (-1.7976931348623157e308, True), (-5e-324, True)]
 SIM_D = [-5.0, 0.0, 1.0, 4.4, 4.5, 4.6, 9.9, 10.0, 10.1, 17.25, 22.4, 22.5, 22.6, 30.0, 34.9, 35.0, 35.1, 50.0, 79.9, 80.0,
          80.1, 100.0, 144.9, 145.0, 145.1, 1000.0, 2000.0]
 
